@@ -225,6 +225,21 @@ pub fn case_generated(ctx: &Ctx, va: &dyn VariantApi, n: usize, seed: u64, live:
     if Some(h.lvalue()) != want {
         return Err(format!("{}: hash of {} bytes carries length code {} but new({}) = {:?}", v.name, n, h.lvalue(), n, want));
     }
+    // "a generated hash always carries the code of the number of bytes fed": under every option
+    // setting that yields a hash (length mode, Q-ratio mode, the three waivers)
+    for oi in 0..32 {
+        st.eval();
+        if let Ok(h) = g.finalize(Opts::from_index(oi)) {
+            if Some(h.lvalue()) != want {
+                return Err(format!("{}: hash of {} bytes under options {} carries length code {} but new({}) = {:?}", v.name, n, super::common::opt_name(oi), h.lvalue(), n, want));
+            }
+        }
+    }
+    if let Ok(h) = g.finalize_default() {
+        if Some(h.lvalue()) != want {
+            return Err(format!("{}: finalize() of {} bytes carries length code {} but new({}) = {:?}", v.name, n, h.lvalue(), n, want));
+        }
+    }
     if n > 0 {
         st.nontrivial(crate::ctx::fnv_mix(crate::ctx::fnv(v.name.as_bytes()), n as u64));
     }
@@ -237,10 +252,18 @@ pub fn case_generated_state(va: &dyn VariantApi, api: &dyn GlobalApi, n: u32) ->
     let gs = spec.render(v);
     let g = va.gen_from_state(&gs).ok_or("no hooks")?;
     match (g.finalize(Opts::from_index(Opts::PERMISSIVE_INDEX)), api.len_new(n)) {
-        (Ok(h), Some(c)) if h.lvalue() == c => Ok(()),
-        (Err(GErr::TooLarge), None) => Ok(()),
-        (r, c) => Err(format!("{}: generator at {} bytes gives {:?} but new({}) = {:?}", v.name, n, r.map(|h| h.lvalue()), n, c)),
+        (Ok(h), Some(c)) if h.lvalue() == c => {}
+        (Err(GErr::TooLarge), None) => {}
+        (r, c) => return Err(format!("{}: generator at {} bytes gives {:?} but new({}) = {:?}", v.name, n, r.map(|h| h.lvalue()), n, c)),
     }
+    for oi in 0..32 {
+        if let Ok(h) = g.finalize(Opts::from_index(oi)) {
+            if Some(h.lvalue()) != api.len_new(n) {
+                return Err(format!("{}: generator at {} bytes under options {} carries length code {} but new({}) = {:?}", v.name, n, super::common::opt_name(oi), h.lvalue(), n, api.len_new(n)));
+            }
+        }
+    }
+    Ok(())
 }
 
 fn run_generated(ctx: &Ctx) -> CheckResult {
